@@ -44,6 +44,19 @@ def make_files(d, thorough):
     V.write_vtr(p, [0, 2, 0, 1, 0, 0], [[0.0, 1.0, 3.0], [0.0, 2.0], [0.0]], [("p", "Float64", 1, [float(i) for i in range(6)])],
                 [("c", "Float64", 1, [1.0, 2.0])], V.Cfg("appended-base64"))
     out.append(("vtr/appended-base64", p, []))
+    for fmt in ("appended-raw", "binary") + (("ascii",) if thorough else ()):
+        p = os.path.join(d, f"rect_{fmt}.vtr")
+        V.write_vtr(p, [0, 2, 0, 1, 0, 0], [[0.0, 1.0, 3.0], [0.0, 2.0], [0.0]], [("p", "Float64", 1, [float(i) for i in range(6)])],
+                    [("c", "Float64", 1, [1.0, 2.0])], V.Cfg(fmt))
+        out.append((f"vtr/{fmt}", p, []))
+    p = os.path.join(d, "img_raw.vti")
+    V.write_vti(p, [0, 2, 0, 1, 0, 0], [0.0, 0.0, 0.0], [1.0, 1.0, 1.0], None, [("p", "Float64", 1, [float(i) for i in range(6)])],
+                [("c", "Float64", 1, [1.0, 2.0])], V.Cfg("appended-raw"))
+    out.append(("vti/appended-raw", p, []))
+    p = os.path.join(d, "str_raw.vts")
+    V.write_vts(p, [0, 2, 0, 1, 0, 0], [[float(i), float(j), 0.0] for j in range(2) for i in range(3)],
+                [("p", "Float64", 1, [float(i) for i in range(6)])], [("c", "Float64", 1, [1.0, 2.0])], V.Cfg("appended-raw"))
+    out.append(("vts/appended-raw", p, []))
     p = os.path.join(d, "str.vts")
     V.write_vts(p, [0, 2, 0, 1, 0, 0], [[float(i), float(j), 0.0] for j in range(2) for i in range(3)],
                 [("p", "Float64", 1, [float(i) for i in range(6)])], [("c", "Float64", 1, [1.0, 2.0])], V.Cfg("binary"))
